@@ -43,6 +43,7 @@ type printer struct {
 	b      strings.Builder
 	indent int
 	flat   bool
+	noIn   bool // inside a for head: parenthesise `in` expressions (also inside pattern defaults, where goja's parser wants it)
 }
 
 func (p *printer) nl() {
@@ -484,6 +485,9 @@ func (p *printer) dflt(e *Node) string {
 	if e.K == KAssign && e.S != "=" {
 		return "(" + p.expr0(e) + ")"
 	}
+	if p.noIn && containsIn(e) {
+		return "(" + p.expr0(e) + ")"
+	}
 	return p.expr(e, 2)
 }
 
@@ -527,7 +531,7 @@ func (p *printer) pattern(n *Node) string {
 			}
 			key := propKey(x.S)
 			if x.Has(FComputed) {
-				key = "[" + p.expr(x.C, 2) + "]"
+				key = "[" + p.dflt(x.C) + "]"
 			}
 			s := key + ": " + p.pattern(x.A)
 			if x.B != nil {
@@ -620,6 +624,10 @@ func (p *printer) class(n *Node) string {
 }
 
 func (p *printer) varDecl(n *Node, inForHead bool) string {
+	if inForHead {
+		p.noIn = true
+		defer func() { p.noIn = false }()
+	}
 	parts := make([]string, len(n.L))
 	for i, d := range n.L {
 		s := p.pattern(d.A)
@@ -672,6 +680,8 @@ func (p *printer) forLeft(n *Node) string {
 	if n.K == KVar {
 		return p.varDecl(n, true)
 	}
+	p.noIn = true
+	defer func() { p.noIn = false }()
 	return p.pattern(n)
 }
 
